@@ -68,6 +68,39 @@ class Check:
         self.parts.append(summary)
         return results
 
+    def run_jobs(self, name, jobs, par_jobs=8, par_paths=2, timeout=600):
+        """jobs: list of {'name', 'path_fn': f(M)->obs, 'post': g(rows, stats, binary, workdir)->result dict}; result dict keys as in
+        family.run_template (paths, stats, replayed, replay_ok, violations, inconclusive, silent, cases, ref_kinds, samples)"""
+        global _J
+        t0 = time.time()
+        _J = (self.M, self.binary, timeout, par_paths, jobs, self.id)
+        results = []
+        if par_jobs <= 1 or len(jobs) <= 1:
+            for i in range(len(jobs)): results.append(_job_worker(i))
+        else:
+            ctx = multiprocessing.get_context('fork')
+            with concurrent.futures.ProcessPoolExecutor(max_workers=par_jobs, mp_context=ctx) as ex:
+                futs = [ex.submit(_job_worker, i) for i in range(len(jobs))]
+                for i, f in enumerate(futs):
+                    try: results.append(f.result())
+                    except Exception as e: results.append(_empty_result(jobs[i]['name'], 'worker crashed: %r' % (e,)))
+        summary = {'family': name, 'jobs': len(jobs), 'paths': 0, 'wall_s': 0, 'notes': {}}
+        for r in results:
+            self.states += r['paths']; self.transitions += r['stats'].get('steps', 0); self.queries += r['stats'].get('queries', 0); self.solver_s += r['stats'].get('solver_s', 0)
+            self.replayed += r['replayed']; self.replay_ok += r['replay_ok']; self.silent += r.get('silent', 0)
+            self.obligations += r.get('obligations', 0); self.discharged += r.get('discharged', 0)
+            summary['paths'] += r['paths']
+            for k, v in r.get('notes', {}).items(): summary['notes'][k] = summary['notes'].get(k, 0) + v
+            for s in r.get('samples', []):
+                if len(self.samples) < 12: self.samples.append(s)
+            for inc in r['inconclusive']: self.inconclusive.append('%s/%s: %s' % (name, r['name'], inc))
+            for v in r['violations']:
+                v = dict(v); v['family'] = name; v.setdefault('role', '%s:%s' % (name, v.get('aspect', '?')))
+                self.violations.append(v)
+        summary['wall_s'] = round(time.time() - t0, 1)
+        self.parts.append(summary)
+        return results
+
     def note_violation(self, role, what, replay_bytes, ext='sd', extra=None):
         v = {'role': role, 'what': what, 'script': replay_bytes, 'ext': ext}
         if extra: v.update(extra)
@@ -153,4 +186,26 @@ def _run_one(M, t, aspects, binary, wd, par, timeout):
         return F.run_template(M, t, aspects, binary, wd, par=par, timeout=timeout)
     finally:
         import shutil
+        shutil.rmtree(wd, ignore_errors=True)
+
+_J = None
+def _empty_result(name, inc=None):
+    return {'name': name, 'paths': 0, 'stats': {'steps': 0, 'queries': 0, 'solver_s': 0}, 'replayed': 0, 'replay_ok': 0, 'violations': [], 'inconclusive': [inc] if inc else [],
+            'silent': 0, 'cases': 0, 'ref_kinds': {}, 'samples': [], 'notes': {}, 'obligations': 0, 'discharged': 0}
+def _job_worker(i):
+    import shutil
+    from mirsym import explore as X
+    M, binary, timeout, par_paths, jobs, pid = _J
+    job = jobs[i]
+    wd = os.path.join(TMP, 'job-%s-%d-%d' % (pid, os.getpid(), i))
+    try:
+        rows, stats = X.explore(M, job['path_fn'], par=par_paths, timeout=job.get('timeout', timeout), tag=job['name'][:20])
+        res = _empty_result(job['name'])
+        res['paths'] = len(rows); res['stats'] = stats
+        if stats['timed_out']: res['inconclusive'].append('exploration timed out')
+        for r in rows:
+            if r['status'] != 'ok': res['inconclusive'].append('%s: %s' % (r['status'], r['detail'][:300]))
+        job['post']([r for r in rows if r['status'] == 'ok'], res, binary, wd)
+        return res
+    finally:
         shutil.rmtree(wd, ignore_errors=True)
